@@ -18,6 +18,8 @@ def seed_name(d):
     parts = os.path.normpath(d).split(os.sep)
     if parts[-2].startswith("seed2_"):          # second wave: m1/m2 are kept as m3/m4
         return parts[-2].replace("seed2_", "") + "_m" + str(int(parts[-1][1:]) + 2)
+    if parts[-2].startswith("seed8_"):          # eighth wave: m11
+        return parts[-2].replace("seed8_", "") + "_m" + str(int(parts[-1][1:]) + 10)
     if parts[-2].startswith("seed7_"):          # seventh wave: m10
         return parts[-2].replace("seed7_", "") + "_m" + str(int(parts[-1][1:]) + 9)
     if parts[-2].startswith("seed6_"):          # sixth wave: m9
